@@ -31,7 +31,7 @@ fn batch_outcome(s: &Unsealed, txs: &[Transaction], action: Option<ProposerActio
     .map_err(|p| p.message)
 }
 
-fn topo_order(txs: &[Transaction]) -> Vec<Transaction> {
+pub fn topo_order(txs: &[Transaction]) -> Vec<Transaction> {
     let hashes: HashMap<TxHash, usize> = txs.iter().enumerate().map(|(i, t)| (t.hash_nosigs(), i)).collect();
     let mut done: HashSet<usize> = HashSet::new();
     let mut out = vec![];
